@@ -254,6 +254,69 @@ func runC03(cfg *vh.Config) error {
 	}
 	res.Notes = append(res.Notes, fmt.Sprintf("fault documents the independent reader did not classify as must-reject (not judged): %d", disagree))
 
+	// ---- stream 3b: the input is ONE document: anything but white space after the top-level value is a
+	// fault (fixed corpus of tails x accepted documents), white space around the document is not
+	{
+		tails := []struct {
+			tail  string
+			class string
+		}{
+			{`{}`, "second document"}, {`{"sString":"lost"}`, "second document"}, {` {"sBool":true}`, "second document"},
+			{"\n{}", "second document"}, {` x`, "stray text"}, {`]`, "stray close"}, {`}`, "stray close"}, {`,`, "stray separator"},
+			{`:`, "stray separator"}, {`null`, "second value"}, {` 1`, "second value"}, {`"`, "unterminated string"},
+			{`"x"`, "second value"}, {` tru`, "incomplete literal"}, {`[]`, "second value"}, {"\x00", "stray text"},
+		}
+		pads := [][2]string{{"", " "}, {"", "\n"}, {" ", ""}, {"\t\r\n ", " \n\t\r"}, {"\n\n", "\n"}}
+		nTail := cfg.Scale(12, 120)
+		for i := 0; i < nTail && len(bases) > 0 && !tripped(); i++ {
+			b := bases[(i*7)%len(bases)]
+			canon := []byte(b.tree.Print(nil))
+			co, ran := dec(b.t, canon, "trailing")
+			if !ran || co.Kind != "ok" {
+				continue
+			}
+			want := co.term()
+			for _, tl := range tails {
+				doc := append(append([]byte{}, canon...), tl.tail...)
+				o, ran := dec(b.t, doc, "trailing")
+				if !ran {
+					continue
+				}
+				distinct.Add(b.t.Name + string(doc))
+				res.Count("trailing")
+				res.Count("trailing-outcome:" + o.Kind)
+				input := map[string]any{"target": b.t.Env.Root, "json": short(doc), "tail": tl.tail}
+				switch o.Kind {
+				case "ok":
+					res.Fail(vh.Failure{Case: em.caseNo, Stream: "trailing", Sig: "C03 data after the top-level value accepted: " + tl.class, Clause: "a document is rejected with an error rather than partially accepted", Input: input, Got: "decoded to " + short([]byte(o.term())), Want: "error"})
+				case "panic":
+					res.Fail(vh.Failure{Case: em.caseNo, Stream: "trailing", Sig: "C03 decoder panics in " + o.Site, Clause: "rejected with an error", Input: input, Got: o.Panic})
+				}
+				em.add(decCase(b.t, doc, o), "trailing", input, map[string]any{"kind": o.Kind, "err": o.Err})
+				em.caseNo++
+			}
+			for _, pd := range pads {
+				doc := append(append([]byte(pd[0]), canon...), pd[1]...)
+				o, ran := dec(b.t, doc, "padded")
+				if !ran {
+					continue
+				}
+				res.Count("padded")
+				input := map[string]any{"target": b.t.Env.Root, "json": short(doc)}
+				switch {
+				case o.Kind == "err":
+					res.Fail(vh.Failure{Case: em.caseNo, Stream: "padded", Sig: "C03 documented spelling rejected: white space around the document", Clause: "insignificant whitespace produces the same message as the canonical spelling", Input: input, Got: o.Err})
+				case o.Kind == "panic":
+					res.Fail(vh.Failure{Case: em.caseNo, Stream: "padded", Sig: "C03 decoder panics in " + o.Site, Clause: "decoding succeeds or is rejected with an error", Input: input, Got: o.Panic})
+				case o.term() != want:
+					res.Fail(vh.Failure{Case: em.caseNo, Stream: "padded", Sig: "C03 spelling variant decodes to a different message: white space around the document", Clause: "insignificant whitespace produces the same message as the canonical spelling", Input: input, Got: firstDiff(o.term(), want)})
+				}
+				em.add(decCase(b.t, doc, o), "padded", input, map[string]any{"kind": o.Kind, "err": o.Err})
+				em.caseNo++
+			}
+		}
+	}
+
 	// ---- stream 4: two members of one unexposed proto oneof (both non-null)
 	nSib := cfg.Scale(40, 600)
 	for i := 0; i < nSib; i++ {
